@@ -8,6 +8,7 @@ mod conv;
 mod dev;
 mod page;
 mod prog;
+mod simple;
 mod util;
 
 fn arg(args: &[String], name: &str) -> Option<String> {
@@ -34,6 +35,7 @@ fn main() {
         "c16-run" => c16::run(&arg(&args, "--progs").expect("--progs"), seed, argn(&args, "--scheds", 6) as usize, &out),
         "c17-run" => c17::run(&arg(&args, "--progs").expect("--progs"), argn(&args, "--depth", 2) as usize, &out),
         "e57-run" => prog::run_programs(&arg(&args, "--progs").expect("--progs"), &out),
+        "simple-run" => simple::run(&arg(&args, "--progs").expect("--progs"), &out),
         "page-replay-r" => page::replay_r(&arg(&args, "--edges").expect("--edges"), &out),
         "page-trace-case-r" => page::trace_case_r(&arg(&args, "--case").expect("--case"), &out),
         "page-trace-history" => page::trace_history(&arg(&args, "--history").expect("--history"), &out),
